@@ -8,8 +8,9 @@ import numpy as np
 import common as C
 import hydro_common as HC
 
-LEAN_MODULES = ["WallGoVerif.Props.C06", "WallGoVerif.Props.C06J"]
-LEMMA_MODULES = ["WallGoVerif.Lemmas.Hydro", "WallGoVerif.Lemmas.Jouguet", "WallGoVerif.Model.Jouguet"]
+LEAN_MODULES = ["WallGoVerif.Props.C06", "WallGoVerif.Props.C06J", "WallGoVerif.Props.C06W"]
+LEMMA_MODULES = ["WallGoVerif.Lemmas.Hydro", "WallGoVerif.Lemmas.Jouguet", "WallGoVerif.Model.Jouguet", "WallGoVerif.Lemmas.Window",
+                 "WallGoVerif.Model.Window"]
 GEN_MODULES = ["Helpers", "Hydro"]
 VALIDATION_POINTS = (100, 2000)
 RULE = ("obligations = Lean theorems of Props.C06 about regenerated Gen.R.Hydro (vm^2 = max(min(vw^2, cs-^2),0); deflagration vm=vw<=cs-, "
@@ -39,6 +40,28 @@ def corr(rep: C.Report, tier: str):
     rep.obligation("correspondence Model.Jouguet.search = real Hydrodynamics.findJouguetVelocity bracket search (method, bracket, steps)",
                    "correspondence", not bad and len(outs) == len(lines), f"{len(lines)} searches; {bad[:1]}")
     rep.extra["jouguet_disagreements"] = bad[:3]
+    # fastestDeflag / slowestDeton: stub findMatching and root_scalar (raising ValueError like brentq when there is no sign change)
+    lines, expect = [], []
+    for _ in range(400 if tier == "quick" else 5000):
+        k, p = HC.window_params(r)
+        toks = [str(C.f2b(x)) for x in p]
+        if k == "deflag":
+            toks[-2:] = [str(p[-2]), str(p[-1])]
+        lines.append(k + " " + " ".join(toks))
+        try:
+            expect.append(HC.scripted_window(k, p))
+        except Exception as ex:  # noqa: BLE001
+            expect.append(f"raised {type(ex).__name__}")
+    outs = C.lean_run("WindowF", lines)
+    bad = []
+    for ln, e, o_ in zip(lines, expect, outs):
+        rep.case(key=("window", ln.split()[0], " ".join(o_.split()[1:])))
+        rep.count(f"window {ln.split()[0]}")
+        if e != o_:
+            bad.append({"real": e, "model": o_, "line": ln[:160]})
+    rep.obligation("correspondence Model.Window.fastestDeflag/slowestDeton = real Hydrodynamics.fastestDeflag/slowestDeton on stub matchings "
+                   "(velocity, flag updates)", "correspondence", not bad and len(outs) == len(lines), f"{len(lines)} cases; {bad[:1]}")
+    rep.extra["window_disagreements"] = bad[:3]
 
 
 def search(rep: C.Report, tier: str, broken):
